@@ -1,4 +1,4 @@
-------------------------------- MODULE FilterP -------------------------------
+---------------------------- MODULE TrafficFilterP ----------------------------
 (* C19 - traffic filter: property specification (P).                            *)
 (*                                                                             *)
 (* One case = one decision  is_allowed(host, headers)  of a TrafficFilter       *)
